@@ -39,9 +39,24 @@ def gen_c11(rng, full: bool) -> Dict[str, Any]:
     return {"engine": "clock", "config": {"tz": tz, "epoch0": epoch0, "sched": 0}, "steps": uidify(steps)}
 
 
-def gen_c13(rng) -> Dict[str, Any]:
+def near_midnight(rng, tz: str, epoch0: float, tick_ns: int) -> float:
+    """An instant a few clock reads before a local midnight (for ticking-clock runs)."""
+    import datetime as dt
+    d = localtime.local_dt(tz, epoch0)
+    nxt = (d + dt.timedelta(days=1)).replace(hour=0, minute=0, second=0, microsecond=0)
+    return nxt.timestamp() - rng.choice([0.5, 1, 1.5, 2, 2.5, 3.5, 6]) * tick_ns / 1e9
+
+
+def gen_c13(rng, ticking: bool = False) -> Dict[str, Any]:
     tz = rng.choice(ZONES)
     epoch0 = gen_epoch_zone(rng, tz)
+    if ticking:
+        tick = rng.choice([1_000_000, 400_000_000, 30_000_000_000])
+        scn = gen_c13(rng)
+        scn["config"]["tick_ns"] = tick
+        scn["config"]["epoch0"] = near_midnight(rng, scn["config"]["tz"], scn["config"]["epoch0"], tick)
+        scn["steps"] = [s for s in scn["steps"] if s["kind"] == "next_run"][:rng.randrange(1, 4)]
+        return scn
     steps: List[dict] = []
     d = localtime.local_dt(tz, epoch0)
     now_m = d.hour * 60 + d.minute
